@@ -49,6 +49,24 @@ pub fn run<C: Suite>(ctx: &mut Ctx) {
         (false, true) => shapes(4),
         (false, false) => shapes(6),
     };
+    // large thresholds: encodings grow with t (buffers, multi-byte length prefixes); few persistence patterns, two participants
+    let fastc = matches!(C::NAME, "ed25519" | "ristretto255" | "secp256k1" | "secp256k1-tr");
+    let large: Vec<(u16, u16)> = match (ctx.quick(), fastc) {
+        (true, true) => vec![(17, 16)],
+        (true, false) => vec![(10, 9)],
+        (false, true) => vec![(17, 16), (33, 32), (130, 129)],
+        (false, false) => vec![(10, 9), (17, 16), (33, 32)],
+    };
+    for (n, t) in large {
+        for proto in ["dkg", "refresh-dkg", "dealer", "refresh-dealer"] {
+            if !ctx.item(&format!("{proto} LARGE n={n} t={t}")) {
+                continue;
+            }
+            ctx.note("large", json!(true));
+            ctx.guard(|ctx| item::<C>(ctx, proto, n, t, "default"));
+            ctx.notes.remove("large");
+        }
+    }
     for (n, t) in shapes_v {
         for proto in ["dkg", "refresh-dkg", "dealer", "refresh-dealer", "repair", "coordinator"] {
             for kind in ["default", "derived"] {
@@ -70,6 +88,9 @@ pub fn run<C: Suite>(ctx: &mut Ctx) {
 /// the store combinations tried for `nb` boundaries
 fn combos(ctx: &Ctx, nb: usize, p: &mut crate::rng::Pick) -> Vec<Vec<Store>> {
     let mut out = vec![];
+    if ctx.notes.contains_key("large") {
+        return vec![vec![Store::Bin; nb], vec![Store::Json; nb], (0..nb).map(|b| if b % 2 == 0 { Store::Bin } else { Store::Json }).collect()];
+    }
     for how in [Store::Bin, Store::Json] {
         for mask in 1u32..(1 << nb) {
             out.push((0..nb).map(|b| if mask >> b & 1 == 1 { how } else { Store::Mem }).collect());
@@ -201,7 +222,8 @@ fn item<C: Suite>(ctx: &mut Ctx, proto: &str, n: u16, t: u16, kind: &str) {
                     Err(err) => return ctx.viol("honest-run-failed", proto, json!({"err": err})),
                 }
             }
-            for me in &ids {
+            let who: Vec<Identifier<C>> = if ctx.notes.contains_key("large") { vec![ids[0], ids[ids.len() - 1]] } else { ids.clone() };
+            for me in &who {
                 let base = match run_participant(me, &mem, Some(&comms)) {
                     Ok(x) => x.0,
                     Err(err) => return ctx.viol("honest-run-failed", proto, json!({"err": err})),
@@ -259,7 +281,8 @@ fn item<C: Suite>(ctx: &mut Ctx, proto: &str, n: u16, t: u16, kind: &str) {
                     Err(err) => return ctx.viol("honest-run-failed", proto, json!({"err": err})),
                 }
             }
-            for me in &ids {
+            let who: Vec<Identifier<C>> = if ctx.notes.contains_key("large") { vec![ids[0], ids[ids.len() - 1]] } else { ids.clone() };
+            for me in &who {
                 let base = match run_participant(me, &mem, Some(&comms)) {
                     Ok(x) => x.0,
                     Err(err) => return ctx.viol("honest-run-failed", proto, json!({"err": err})),
